@@ -5,6 +5,8 @@ from . import hashing as H
 def check(ck):
     from .memo import check_new_memo_tables
     ck.run(check_new_memo_tables, ck, "C13.M1", ('memento', 'code_hash', 'configuration'))
+    ck.rule("C13.R6", "every referenced symbol is watched by a hash rule", 1)
+    ck.run(H.check_every_symbol_watched, ck, "C13.R6")
     ck.run(H.check_update_protocol, ck, "C13.R1")
     ck.run(H.check_did_change, ck, "C13.R2")
     ck.run(H.check_resolver_closures, ck, "C13.R3")
